@@ -565,6 +565,12 @@ func ruleO6(w *World, r *Report) {
 					}
 				}
 			}
+		default:
+			// any other route from Flush into the tree writer (the exported Write wrapper,
+			// a helper that re-reads the collection's root) writes a version Flush did not pin
+			if callee := c.Common().StaticCallee(); callee != nil && callee != ro.rootWriter && w.G.ReachFrom(callee).Set[ro.writeBoth] {
+				r.Bad(rule, "(*Store).Flush › writes the pinned version of each collection", w.InstrPos(in), "Flush reaches the tree writer through "+w.Name(callee)+", which does not receive the version pinned under that name: a mutation between the pin and this call makes the root record name a version whose nodes were never written")
+			}
 		}
 	})
 	// the version marshaller
@@ -917,7 +923,7 @@ func init() {
 	register(&Property{
 		ID:    "C03",
 		Level: "other",
-		Rules: []Rule{{"O1", ruleO1}, {"O2", ruleO2}, {"O2b", ruleO2b}, {"O3", ruleO3}, {"O4", ruleO4}, {"O5", ruleO5}, {"O5s", ruleScanStep}, {"T1", ruleT1}, {"Y4", ruleLayoutRoot}},
+		Rules: []Rule{{"O1", ruleO1}, {"O2", ruleO2}, {"O2b", ruleO2b}, {"O3", ruleO3}, {"O4", ruleO4}, {"O5", ruleO5}, {"O5s", ruleScanStep}, {"T1", ruleT1}, {"Y4", ruleLayoutRoot}, {"A-off", ruleAOff}, {"A-mono", ruleAMono}},
 		Explanation: "Decides the structural part of crash atomicity: the root record is the single commit point (O1 last, O2 one straight-line WriteAt of a fully assembled buffer), data is written before it in dependency order (O4), Store.size is advanced only on the success arm of every write and to exactly offset+length (O3), and on open the reader validates every framing field the writer emits before installing the decoded collections (O5: MagicEnd x2, MagicBeg x2, version, inner length = trailer length, offset >= 0, offset < size - minimal record, and A9 length == size - offset), each test's failing arm leading only to rejection or re-test. NOT decided: byte-granular torn writes and adversarial junk imitating a complete self-consistent root record (the README records that trade-off), nor recovery followed by continued use.",
 		ControlSrc:   controlC02,
 		ControlEdits: []ControlEdit{{"NewStoreEx", "if zzCtlNever { (*Store)(nil).zzCtlAcceptAnyway(nil, 0) }"}},
